@@ -273,7 +273,7 @@ def run_case(case):
                 with open(os.path.join(proj.dir, "scenarios", fb), "w") as f:
                     json.dump({sm: second}, f)
             b = core.new_bptk_here()
-        elif channel in ("session", "rest", "session-after-run", "rest-after-run", "export", "repeat-points", "rest-after-run+unknown-scenario-before", "rest-after-run+unknown-scenario-behind",
+        elif channel in ("session", "session+regrs", "rest", "session-after-run", "rest-after-run", "export", "repeat-points", "rest-after-run+unknown-scenario-before", "rest-after-run+unknown-scenario-behind",
                          "rest-after-run+unknown-manager-before", "rest-after-run+unknown-manager-behind"):
             b = core.new_bptk_here()
             if kind == "dsl":
@@ -282,7 +282,16 @@ def run_case(case):
                 md.pop("scenarios")
                 md["model"] = model
                 b.register_scenario_manager({sm: md})
-                b.register_scenarios(scenarios={"s1": {}, "s0": {}}, scenario_manager=sm)
+                if channel == "session+regrs":
+                    # the scenario was registered with run specs of its own (the model runs 1..4); the session's settings carry only some
+                    # run specs (or none): the others stay the scenario's, whether or not the scenario has been run before
+                    b.register_scenarios(scenarios={"s1": {"runspecs": {"starttime": 2.0, "stoptime": 6.0}}, "s0": {}}, scenario_manager=sm)
+                    eff1 = effective(kind, base, "none")
+                    eff1.update({"start": 2.0, "stop": 6.0})
+                    eff1.update(copy.deepcopy(SETTINGS[setting][1]))
+                    channel = "session"
+                else:
+                    b.register_scenarios(scenarios={"s1": {}, "s0": {}}, scenario_manager=sm)
             else:
                 md = manager_dict(kind, proj, base, {"s1": {}, "s0": {}}, True)
                 b.register_scenario_manager({sm: md})
@@ -403,6 +412,8 @@ def run_case(case):
 
 def cases(tier):
     out = []
+    for setting in ("none", "const", "dt", "stop", "start", "start-neg", "points"):
+        out.append(("dsl", "session+regrs", "nobase", setting))
     for channel in ("dict", "register_model", "file", "two-files", "two-files-rev", "session", "rest", "session-after-run", "rest-after-run", "export", "repeat-points",
                     "rest-after-run+unknown-scenario-before", "rest-after-run+unknown-scenario-behind",
                     "rest-after-run+unknown-manager-before", "rest-after-run+unknown-manager-behind"):
